@@ -26,7 +26,7 @@ LEVEL_TEXT = ("Seeded restart-fault exploration: the JSON save/load path is exer
 LEVEL_NOTE = "Trusted: in-memory file shim (cross-checked against a real directory in a sampled fraction), dump comparison; sampling evidence only."
 PROBES = ["stage_built", "stage_initialized", "stage_paused", "stage_finished", "stage_backward", "stage_edited",
           "with_subproject_task", "with_task_rules", "with_mainwp", "with_conveyor", "zero_lst_value", "resimulated_twin", "real_directory_used",
-          "unconfigured_subproject_task", "non_auto_subproject_task", "encoding_option_used", "file_read_twice"]
+          "unconfigured_subproject_task", "non_auto_subproject_task", "encoding_option_used", "file_read_twice", "continued_twin_compared"]
 
 
 def budget(tier):
@@ -347,6 +347,9 @@ def run(spec):
             if attr is not None:
                 res.add("roundtrip", "C16.roundtrip_differs.%s" % attr,
                         "stage %s: file written by the restored project differs from the original file at %s: %r vs %r" % (stage, d[0], d[1], d[2]), None)
+        check_refs(res, new)
+        check_attributes(res, p, new, stage)
+        refs_done = True
         if spec.get("read_twice") and out is not None and ow2.ok:
             # a project restored from the file goes on (its logs grow in place); the file has not changed, so reading it a second
             # time gives the file again
@@ -355,7 +358,18 @@ def run(spec):
             if D.call(lambda: pa.read_simple_json(path, **ekw)).ok:
                 seams.attach(pa)
                 seams.rerank(pa, ranks or {})
-                scen.simulate(pa, dict(cfg, init_state=False, init_log=False), want_snap=False)
+                ra_, oa_ = scen.simulate(pa, dict(cfg, init_state=False, init_log=False), want_snap=False)
+                if stage in ("paused", "finished"):
+                    # ... and it goes on exactly as the original goes on
+                    ro_, oo_ = scen.simulate(p, dict(cfg, init_state=False, init_log=False), want_snap=False)
+                    da_, do_ = D.dump(pa), D.dump(p)
+                    da_["_outcome"], do_["_outcome"] = [oa_.ok, oa_.exc_type, oa_.where], [oo_.ok, oo_.exc_type, oo_.where]
+                    dd_ = D.first_diff(do_, da_)
+                    res.count("continued_twin_compared")
+                    if dd_ is not None:
+                        res.add("behaviour", "C16.continuation_of_restored_project_differs.%s" % stage,
+                                "stage %s: continued with initialize_state_info=False, initialize_log_info=False the restored project differs "
+                                "from the original continued the same way at %s: %r vs %r" % (stage, dd_[0], dd_[1], dd_[2]), None)
                 pb = M.bp.BaseProject()
                 ob = D.call(lambda: pb.read_simple_json(path, **ekw))
                 path3 = "mem:c16c.json" if tmpdir is None else tmpdir + "/p3.json"
@@ -372,8 +386,6 @@ def run(spec):
         if tmpdir is not None:
             import shutil
             shutil.rmtree(tmpdir, ignore_errors=True)
-    check_refs(res, new)
-    check_attributes(res, p, new, stage)
     # behavioural twin: simulate both from scratch under the same schedule and configuration
     seams.attach(new)
     seams.rerank(new, ranks or {})
